@@ -105,6 +105,13 @@ pub struct Case {
     /// (alias, target): two names of one file (hard links); both are entries of `files`
     #[serde(default, skip_serializing_if = "Vec::is_empty")]
     pub hardlinks: Vec<(String, String)>,
+    /// explicit path arguments that also exist as placeholders in the scratch tree, so that the
+    /// product can ask the file system about them (identity, canonical path)
+    #[serde(default, skip_serializing_if = "std::ops::Not::not")]
+    pub explicit_real: bool,
+    /// the hard-linked names stop being one file when written to (overlay file system)
+    #[serde(default, skip_serializing_if = "std::ops::Not::not")]
+    pub links_copy_up: bool,
     /// files whose placeholder is a symbolic link (directory / glob / files-from forms only)
     #[serde(default, skip_serializing_if = "Vec::is_empty")]
     pub symlinks: Vec<String>,
@@ -374,6 +381,9 @@ impl Case {
                         // same file named twice: the property quantifies over multisets)
                         sc.argv.extend(self.path_args.iter().cloned());
                     }
+                    if self.explicit_real {
+                        sc.real_tree = true;
+                    }
                 }
                 PathForm::Directory | PathForm::Glob => {
                     sc.argv.extend(self.path_args.iter().cloned());
@@ -425,6 +435,7 @@ impl Case {
                     })
                     .cloned()
                     .collect();
+                sc.links_copy_up = self.links_copy_up && !sc.hardlinks.is_empty();
                 // one file has one content
                 for (a, t) in sc.hardlinks.clone() {
                     if let Some(tb) = sc.files.iter().find(|f| f.path == t).map(|f| f.bytes.clone()) {
@@ -1126,7 +1137,8 @@ impl Case {
         // a file named k times may legitimately be printed 1..k times
         let mut optional_blocks: Vec<&[u8]> = vec![];
         let mut judged_logs: Vec<&(String, String)> = vec![];
-        let linked = |p: &str| sc.hardlinks.iter().any(|(a, t)| a == p || t == p);
+        // (names whose link breaks on the first write are simply two files)
+        let linked = |p: &str| !sc.links_copy_up && sc.hardlinks.iter().any(|(a, t)| a == p || t == p);
         for (i, f) in self.files.iter().enumerate() {
             let read_fault = r.read_failed.iter().any(|(p, _)| *p == f.path)
                 && r.fired.iter().any(|x| x.target == f.path && !x.kind.is_benign() && !is_write_side(x.op));
@@ -1176,7 +1188,21 @@ impl Case {
                 if alone_failed {
                     stats.probe("c18_file_failing_on_its_own");
                 }
-                let want = ar.final_bytes(asc, &f.path);
+                let mut want = ar.final_bytes(asc, &f.path);
+                if linked(&f.path) {
+                    // The names of one file share its content: what the file must hold in the end
+                    // is what a name that can be formatted alone gives it (a second name that
+                    // fails alone, e.g. one that is not writable, changes nothing).
+                    let member = self.files.iter().enumerate().find(|(j, m)| {
+                        !exit_nonzero(&alone[*j].1)
+                            && sc.hardlinks.iter().any(|(a, t)| {
+                                (a == &f.path || t == &f.path) && (a == &m.path || t == &m.path)
+                            })
+                    });
+                    if let Some((j, m)) = member {
+                        want = alone[j].1.final_bytes(&alone[j].0, &m.path);
+                    }
+                }
                 // A file reachable under two names (named twice, or hard-linked) may be formatted
                 // once or once per name, one after the other: formatting its formatted text again
                 // is then also what "alone" gives it.
